@@ -1167,6 +1167,129 @@ func installBuiltins(in *Interp, p *Package) {
 	})
 
 
+
+	// ---- function combinators ----
+	formalsOf := func(f *Fun) []*V {
+		if f.Builtin == nil {
+			return f.Formals
+		}
+		var fs []*V
+		for i := 0; i < f.Arity[0]; i++ {
+			fs = append(fs, Sym(fmt.Sprintf("p%d", i+1)))
+		}
+		if f.Arity[1] < 0 {
+			fs = append(fs, Sym("&rest"), Sym("r"))
+		} else if f.Arity[1] > f.Arity[0] {
+			fs = append(fs, Sym("&optional"))
+			for i := f.Arity[0]; i < f.Arity[1]; i++ {
+				fs = append(fs, Sym(fmt.Sprintf("o%d", i+1)))
+			}
+		}
+		return fs
+	}
+	fv := func(f *Fun) *V { return &V{T: TFun, Fn: f, Pos: -1} }
+	B("compose", 2, 2, func(in *Interp, env *Env, a []*V) (*V, *Err) {
+		f, e := in.funArg(a[0])
+		if e != nil {
+			return nil, e
+		}
+		if e := regularFun(in, f); e != nil {
+			return nil, e
+		}
+		g, e := in.funArg(a[1])
+		if e != nil {
+			return nil, e
+		}
+		if e := regularFun(in, g); e != nil {
+			return nil, e
+		}
+		// (compose f g) is (lambda <g's formals> (f (g ...)))
+		gf := formalsOf(g)
+		call := []*V{Sym("lisp:apply"), fv(g)}
+		var rest *V
+		for i, s := range gf {
+			if s.S == "&optional" {
+				continue
+			}
+			if s.S == "&key" {
+				in.Unsupported = "compose over a function with keyword parameters"
+				continue
+			}
+			if s.S == "&rest" {
+				if i+1 < len(gf) {
+					rest = gf[i+1]
+				}
+				break
+			}
+			call = append(call, Sym(s.S))
+		}
+		if rest != nil {
+			call = append(call, Sym(rest.S))
+		} else {
+			call = append(call, Nil())
+		}
+		body := List([]*V{Sym("lisp:funcall"), fv(f), List(call)})
+		return in.newLambda(env, List(gf), []*V{body})
+	})
+	B("flip", 1, 1, func(in *Interp, env *Env, a []*V) (*V, *Err) {
+		f, e := in.funArg(a[0])
+		if e != nil {
+			return nil, e
+		}
+		if e := regularFun(in, f); e != nil {
+			return nil, e
+		}
+		if len(formalsOf(f)) < 2 {
+			return nil, in.errf("argument is not a function of two arguments")
+		}
+		body := List([]*V{fv(f), Sym("y"), Sym("x")})
+		return in.newLambda(env, List([]*V{Sym("x"), Sym("y")}), []*V{body})
+	})
+	B("unpack", 2, 2, func(in *Interp, env *Env, a []*V) (*V, *Err) {
+		f, e := in.funArg(a[0])
+		if e != nil {
+			return nil, e
+		}
+		if a[1].T != TList {
+			return nil, in.errf("last argument is not a list")
+		}
+		if e := regularFun(in, f); e != nil {
+			return nil, e
+		}
+		return in.Apply(env, f, append([]*V{}, a[1].C...), in.curNode)
+	})
+	B("search-sorted", 2, 2, func(in *Interp, env *Env, a []*V) (*V, *Err) {
+		if a[0].T != TInt {
+			return nil, in.errf("first argument is not an integer")
+		}
+		f, e := in.funArg(a[1])
+		if e != nil {
+			return nil, e
+		}
+		if f.Special || f.Macro {
+			in.Unsupported = "special function as search predicate"
+			return Nil(), nil
+		}
+		// "Equivalent to Go's sort.Search"
+		lo, hi := int64(0), a[0].I
+		if hi < 0 {
+			hi = 0
+		}
+		for lo < hi {
+			h := int64(uint64(lo+hi) >> 1)
+			v, e := in.Apply(env, f, []*V{Int(h)}, in.curNode)
+			if e != nil {
+				return nil, e
+			}
+			if !Truthy(v) {
+				lo = h + 1
+			} else {
+				hi = h
+			}
+		}
+		return Int(lo), nil
+	})
+
 	// ---- sorting ----
 	B("insert-index", 4, 4, func(in *Interp, env *Env, a []*V) (*V, *Err) {
 		ts, e := typeSpec(in, a[0])
